@@ -1,3 +1,5 @@
+import MoSql.Gen.Effects
+import MoSql.Ref
 import MoSql.Lemmas.ScrubProps
 import MoSql.Lemmas.NormalSimple
 /-!
@@ -5,6 +7,11 @@ C12 — `calls=` and `fmap=` change how applications are written, never what is 
 -/
 namespace MoSql.Props.C12
 open MoSql MoSql.Scrub
+
+/-- Tie A obligation: `scrub` is a function of the tree it is given — it writes into no object of the grammar's result
+(one `Call` object may sit under several parents: a rename written into it would be applied once per parent) -/
+theorem scrub_writes_nothing_it_was_given :
+    (Gen.argumentWrites.filter (fun w => w.startsWith "utils.scrub:")).all (fun w => Ref.allowedArgumentWrites.contains w) = true := by decide
 
 /-- **`fmap` only chooses the name** an application is stored under: for every operation,
 arguments and keyword arguments, applying `fmap` is the same as applying no `fmap` to the
